@@ -2,6 +2,7 @@ package batcher
 
 import (
 	"context"
+	"math"
 	"sync"
 	"time"
 )
@@ -514,7 +515,12 @@ func (r *batcher) Start(ctx context.Context) (err error) {
 				enforceCapacity := r.ratelimiter != nil
 				var capacity uint32
 				if enforceCapacity {
-					capacity += uint32(float64(r.ratelimiter.Capacity()) / 1000.0 * float64(r.flushInterval.Milliseconds()))
+					// NOTE: round up; truncating gave an allowance of 0 for any capacity below 1000/FlushInterval(ms), which starved the buffer for ever
+					allowance := (uint64(r.ratelimiter.Capacity())*uint64(r.flushInterval.Milliseconds()) + 999) / 1000
+					if allowance > math.MaxUint32 {
+						allowance = math.MaxUint32
+					}
+					capacity += uint32(allowance)
 				}
 
 				// if there are operations in the buffer, go up to the capacity
